@@ -86,7 +86,12 @@ def run(ctx):
             bad = unbounded(lp.iter_term)
             rep.check(not bad, 'R-C16-3', key, 'loop driven by Iterator::next over %s' % short(lp.iter_term, 160),
                       'loop driven by an unbounded iterator (%s) without a bounding adapter' % bad, ctx.where(b, lp.driver_bb))
-    rep.floor('R-C16-3', 'loops in reachable set', nloops, 20)
+    # a `for` loop rewritten as `iter.for_each(..)` / `try_for_each` / `fold` / .. is still an iteration site (it runs inside core, driven by
+    # the same iterator): the positive control counts both forms
+    consumers = ('for_each', 'try_for_each', 'fold', 'try_fold', 'sum', 'any', 'all', 'collect', 'extend', 'unzip', 'count', 'last')
+    niter = sum(1 for b in bodies for bb, t in ctx.calls(b) if callee_decl(t).startswith('std::iter::') and callee_decl(t).split('::')[-1] in consumers)
+    rep.floor('R-C16-3', 'iteration sites (loops + iterator consumers) in reachable set', nloops + niter, 30)
+    rep.note('R-C16-3: %d MIR loops, %d iterator-consumer calls' % (nloops, niter))
 
     # R-C16-4 allocation sizes
     nalloc = 0
